@@ -133,12 +133,12 @@ def _evaluate_inner(node, env, strict, info):
             if name == "max":
                 out = args[0]
                 for a in args[1:]:
-                    out = np.where(np.asarray(a) > np.asarray(out), a, out)
+                    out = np.maximum(out, a)  # (NaN propagates, as in real arithmetic on an undefined operand)
                 return out
             if name == "min":
                 out = args[0]
                 for a in args[1:]:
-                    out = np.where(np.asarray(a) < np.asarray(out), a, out)
+                    out = np.minimum(out, a)
                 return out
             if name == "exp":
                 return np.exp(args[0])
